@@ -4,7 +4,7 @@ import SciVerif.Tie.Pins
 /-! Tie A obligations for C06 on the current source. -/
 namespace SciVerif.Tie
 -- functions the model relies on without an obligation of its own naming them (pinned by bin/mkpins):
--- PIN-ALSO: Scipipe.Process_Run
+-- PIN-ALSO: Scipipe.Process_Run Scipipe.NewTask
 -- PIN-NOT: Scipipe.Task_executeCommand Scipipe.Task_formatCommand Scipipe.FinalizePaths Scipipe.Task_finalizePaths Scipipe.Task_anyOutputsExist
 open SciVerif.Slots
 
@@ -36,12 +36,14 @@ theorem c06_on_source (max : Nat) (cores : List Nat) (sched : List Nat) (s : St)
 
 
 
+
 -- BEGIN PINS (written by bin/mkpins; do not edit by hand)
 /-- the Go functions this property's model and obligations were written against have exactly the
 pinned skeletons (SHA-256 prefix of the atom list) -/
 theorem pinned_skeletons_c06 :
     pinsOk
     [("Scipipe.#decls", "08e57e98702ecd70"),
+     ("Scipipe.NewTask", "95298f03c320cb96"),
      ("Scipipe.Process_Run", "40f832903317f455"),
      ("Scipipe.Task_Execute", "40fd1fec0c69deb2"),
      ("Scipipe.Workflow_DecConcurrentTasks", "2862c41bbe9893c5"),
